@@ -179,8 +179,7 @@ Definition verify_p2pk (now msg : Z) (d : datat) (ts : list tag) (w : witness) :
       match d with
       | DKey (KGood pk) =>
           if 0 <? pt_nsigs pt then
-            if is_nil (pt_pubkeys pt) then false
-            else if is_nil sigs then false
+            if is_nil sigs then false
             else if dup_sigs sigs then false
             else has_valid_sigs msg sigs (pt_nsigs pt) (pk :: pt_pubkeys pt)
           else
